@@ -82,15 +82,74 @@ pub fn run(ctx: &Ctx) -> Outcome {
         let mut lmax = lmax;
         if bs <= 32 && !sweep {
             lens.extend(long_lengths(bs));
-            lmax = lmax.max(17 * bs + 1);
+            lmax = lmax.max(*lens.iter().max().unwrap());
         }
         if bs <= 16 && !sweep {
             // very long single calls (past 32 and 64 blocks)
             lens.extend([33 * bs - 1, 65 * bs + 1]);
             lmax = lmax.max(65 * bs + 1);
         }
+        lens.sort();
+        lens.dedup();
         let fes = family_frontends(cfg, fam, *dir);
         let pre = dirty(lmax);
+        // ---- one object used in two ways: block-level calls first, then the consuming one-shot call on the SAME object ----
+        if let (true, Some(d)) = (matches!(*fam, "cfb" | "cfb8") && !sweep, cfg.block_mode(fam, *dir)) {
+            let par = par_of(cfg);
+            let g = d.mbs;
+            // granules through block-level calls (cfb8: bytes, so also counts that are not multiples of the cipher block)
+            let mut heads: Vec<usize> = if g == 1 { vec![0, 1, 2, bs - 1, bs, bs + 1, 2 * bs + 3, (par + 1) * bs + 1] } else { vec![0, 1, 2, par, par + 1, 2 * par + 1] };
+            heads.sort();
+            heads.dedup();
+            let mut tails = vec![0usize, 1, bs - 1, bs, bs + 1, 2 * bs + 1, (par + 1) * bs + 3];
+            tails.sort();
+            tails.dedup();
+            let total = heads.last().unwrap() * g + tails.last().unwrap();
+            let key = &keys(seed, cfg.key_len)[0];
+            for (ivn, iv) in iv_variants(seed, bs).into_iter().skip(light(cfg, tier)) {
+                let data = pattern(seed, 0xC03A, total);
+                let prefill = dirty(total);
+                for &h in &heads {
+                    for &t in &tails {
+                        let l = h * g + t;
+                        let (want, _) = family_ref(cfg, fam, *dir, key, &iv, &data[..l]);
+                        // how the head is fed: 0 = one multi-block call, 1 = single-block calls, 2 = caller closure (tail shape), 3 = split in two calls
+                        for how in 0..4 {
+                            for kind in KINDS {
+                                rep.case(|| {
+                                    let mut obj = crate::rec::bm(cfg, d, key, &iv);
+                                    let mut out = data[..h * g].to_vec();
+                                    match how {
+                                        0 => {
+                                            let _ = obj.many(Kind::InPlace, &[], &mut out);
+                                        }
+                                        1 => {
+                                            for b in out.chunks_mut(g) {
+                                                obj.one(Kind::InPlace, &[], b);
+                                            }
+                                        }
+                                        2 => obj.many_closure(2, &mut out),
+                                        _ => {
+                                            let cut = (h / 2) * g;
+                                            let (a, b) = out.split_at_mut(cut);
+                                            let _ = obj.many(Kind::InPlace, &[], a);
+                                            let _ = obj.many(Kind::InPlace, &[], b);
+                                        }
+                                    }
+                                    let inp = &data[h * g..l];
+                                    let mut ob = if kind == Kind::InPlace { inp.to_vec() } else { prefill[..t].to_vec() };
+                                    let r = obj.oneshot(kind, inp, &mut ob);
+                                    ensure!(r == Some(Ok(())), "MACHINERY", "harness: one-shot call on an AsyncStreamCipher type");
+                                    out.extend(ob);
+                                    ensure!(out == want, format!("output/{}-{}/blocks-then-oneshot", fam, dir.s()), "{} iv={}: {} granule(s) through block-level calls (form {}), then the one-shot {} call on the same object with {} bytes: got {} want {} (first diff at byte {:?})", d.ty, ivn, h, how, kind.s(), t, short(&out), short(&want), first_diff(&out, &want));
+                                    Ok(())
+                                });
+                            }
+                        }
+                    }
+                }
+            }
+        }
         for key in keys(seed, cfg.key_len).iter().take(if sweep { 1 } else { tier.pick(1, 2) }) {
             for (ivn, iv) in iv_variants(seed, bs).into_iter().skip(if sweep { 2 } else { light(cfg, tier) }) {
                 for (dn, data) in data_variants(seed, 0xC03, lmax).into_iter().skip(if sweep { 2 } else { light(cfg, tier) }) {
